@@ -2142,7 +2142,8 @@ impl HasChildren for XmlElement {
     }
 
     fn insert_by_id(&self, value: Rc<XmlItem>, id: Option<usize>) -> error::Result<Rc<XmlItem>> {
-        if self.ancestor(value.id()) {
+        // neither an ancestor nor the element itself can become its child
+        if value.id() == self.id() || self.ancestor(value.id()) {
             return Err(error::Error::InvalidHierarchy);
         }
 
